@@ -1040,6 +1040,31 @@ def compare(case, res, replies):
             return f"model: mergeBlocks {m['pred']} differs from the blocks of the interleaved run {m['run']['blocks']}"
         if m["pickA"] != m["a"]["blocks"]:
             return f"model: pick true {m['pickA']} differs from the blocks of the run on A {m['a']['blocks']}"
+        # at the positions of B stand the B values themselves, as far as the run got
+        b_idx = [i for i, pp in enumerate(case["pat"]) if not pp]
+        got = [[x["t"] for x in blk] for blk in m["pickB"]]
+        if got != [[2 * i] for i in b_idx[:len(got)]]:
+            return f"model: pick false {got} is not a prefix of the B values {[2 * i for i in b_idx]}"
+        if m["run"]["err"] is None and len(got) != len(b_idx):
+            return f"model: pick false has {len(got)} blocks for {len(b_idx)} B values"
+    else:
+        # the reference notions of the LaTeXToPDF theorems against the real run
+        if m["passed"] != [2 * i for i, pp in enumerate(case["pat"]) if not pp][:len(m["passed"])]:
+            return f"model: passedOf {m['passed']} is not a prefix of the B values"
+        if m["run"]["err"] is None and res["full"]["err"] is None:
+            key = lambda x: repr(sorted(x.items(), key=lambda kv: kv[0]))
+            norm = lambda it: {"d": norm_model_data(it["d"]), "c": None if it["c"] is None else
+                               {"t": it["c"]["t"] if isinstance(it["c"]["t"], int) else "new",
+                                "v": _mask(_plain_cv(it["c"]["v"]))}}
+            prods_model = sorted((norm(x) for x in m["prods"]), key=key)
+            if m["keysok"]:
+                spec = sorted((norm(x) for x in m["spec"]), key=key)
+                if spec != prods_model:
+                    return f"model: pdfSpec {spec} is not the multiset of produced values {prods_model}"
+                impl = [x for blk in res["full"]["blocks"] for x in blk] + res["full"]["tail"]
+                impl = sorted(({"d": x["d"], "c": x["c"]} for x in impl if x["t"] == "new"), key=key)
+                if impl != spec:
+                    return f"pdfSpec {spec} is not the multiset the real element produced {impl}"
     return None
 
 
